@@ -99,6 +99,13 @@ class Ctx(object):
         self.state_hashes = set()
         self.replay_only = replay_only
         self.budget_s = float(os.environ.get('VERIF_BUDGET_S', '0')) or None
+        if not replay_only:
+            # replay files describe the violations of the latest run only
+            d = os.path.join(VERIF, 'replay', pid)
+            if os.path.isdir(d):
+                for f in os.listdir(d):
+                    if f.endswith('.json'):
+                        os.unlink(os.path.join(d, f))
 
     # ---- bookkeeping -------------------------------------------------------------------------
     def count(self, key, n=1):
